@@ -189,7 +189,7 @@ pub fn run(ctx: &Arc<Ctx>) {
     }
 
     // E1: immutability of the cipher object
-    let depth = 4usize;
+    let depth = ctx.tier.pick(4usize, 5);
     for key in [hex::encode(std_key), hex::encode(keys[keys.len() / 2])] {
         let c2 = ctx.clone();
         let k2 = key.clone();
@@ -208,8 +208,9 @@ pub fn run(ctx: &Arc<Ctx>) {
         let st = explore(model);
         ctx.depth(st.max_depth);
         ctx.cov("immutability_model", json!({"unique_states": st.unique_states, "generated": st.generated, "max_depth": st.max_depth}));
-        if st.unique_states != 2801 {
-            ctx.machinery_error(format!("immutability model visited {} states, expected 2801", st.unique_states));
+        let expect: u64 = (0..=depth as u32).map(|d| 7u64.pow(d)).sum();
+        if st.unique_states != expect {
+            ctx.machinery_error(format!("immutability model visited {} states, expected {}", st.unique_states, expect));
         }
     }
     ctx.sample(json!({"History": {"key": hex::encode(std_key), "seq": [0, 3, 1, 2]}}));
